@@ -8,7 +8,8 @@ Provided:
   * combinators             lit / chars / seq / alt / star / plus / opt / rep / anychar  (specification side, no `re` involved)
   * from_regex(p, flags, mode)   Python matching mode is part of the language:
                                  fullmatch | match (any suffix may follow) | search (any prefix and suffix);
-                                 `^` `\\A` only at position 0, `\\Z` only at the end, `$` at the end or before one final '\\n'
+                                 `^` `\\A` only at position 0, `\\Z` only at the end, `$` at the end or before one final '\\n';
+                                 with MULTILINE `^` also after every '\\n' and `$` also before every '\\n'
   * Lang algebra            a & b, a | b, ~a, a - b
   * decisions               compare / included / shortest / accepts / prefix_free / enumerate_shortest, each failure with a
                             SHORTEST witness string
@@ -17,8 +18,8 @@ Provided:
   * preimage / strip_preimage   { s : h(s) in L } for per-code-point string maps (lower, upper, replace of one character)
                             and for str.strip-like trimming
   * IGNORECASE              every one-character item of the pattern is tabulated by asking the platform `re` about each code point
-Unsupported regex constructs (back-references, look-around, \\b, possessive/atomic groups, MULTILINE, LOCALE, scoped inline
-flags, bytes patterns) raise AnalysisError - never guessed.
+Unsupported regex constructs (back-references, look-around, \\b, possessive/atomic groups, LOCALE, scoped inline
+flags, bytes patterns) raise AnalysisError - never guessed.  (MULTILINE is supported.)
 
 Platform definitions: the Unicode predicates (`str.isdigit`, ... and the regex categories \\w \\d \\s) are tabulated by asking the
 running interpreter about every single code point; that is the definition the analysed code will meet, not repository code.
@@ -300,7 +301,7 @@ def opt(r: Re) -> Re:
 
 
 def _re_sets(r: Re, out: set) -> bool:
-    """Collect the CharSets of r into out; returns True when r uses the `$` assertion."""
+    """Collect the CharSets of r into out; returns True when r uses an assertion that looks at newlines (`$`, multiline `^` `$`)."""
     k = r[0]
     if k == 'set':
         out.add(r[1])
@@ -313,7 +314,7 @@ def _re_sets(r: Re, out: set) -> bool:
     if k == 'rep':
         return _re_sets(r[1], out)
     if k == 'at':
-        return r[1] == 'eos_nl'
+        return r[1] in ('eos_nl', 'bol', 'eol')
     if k == 'aut':
         for _p, cs, _q in r[3]:
             out.add(cs)
@@ -333,7 +334,7 @@ def _has_assertion(r: Re) -> bool:
 
 # ---- Python regex -> Re ------------------------------------------------------------------
 
-_UNSUPPORTED_FLAGS = {'MULTILINE': _sc.SRE_FLAG_MULTILINE, 'LOCALE': _sc.SRE_FLAG_LOCALE}
+_UNSUPPORTED_FLAGS = {'LOCALE': _sc.SRE_FLAG_LOCALE}
 _REPEAT_LIMIT = 512
 
 # ---- IGNORECASE: one-character items are tabulated with the platform regex engine ----------------------------------------
@@ -449,7 +450,12 @@ def _conv(items, flags: int) -> Re:
                 raise AnalysisError(f'relang: repeat bound {{{lo},{hi}}} above the supported limit {_REPEAT_LIMIT}')
             out.append(('rep', _conv(sub, flags), lo, hi2))
         elif op is _sc.AT:
-            if av in (_sc.AT_BEGINNING, _sc.AT_BEGINNING_STRING):
+            multiline = bool(flags & _sc.SRE_FLAG_MULTILINE)
+            if av is _sc.AT_BEGINNING and multiline:
+                out.append(('at', 'bol'))
+            elif av is _sc.AT_END and multiline:
+                out.append(('at', 'eol'))
+            elif av in (_sc.AT_BEGINNING, _sc.AT_BEGINNING_STRING):
                 out.append(('at', 'bos'))
             elif av is _sc.AT_END:
                 out.append(('at', 'eos_nl'))
@@ -868,13 +874,14 @@ def _determinize(r: Re, alpha: Alphabet) -> DFA:
     start, final = nfa.build(r)
     eps, chr_, asr = nfa.eps, nfa.chr, nfa.asr
     members = {cs: alpha.members(cs) for edges in chr_ for cs, _ in edges}
-    uses_dollar = any(kind == 'eos_nl' for edges in asr for kind, _ in edges)
+    uses_dollar = any(kind in ('eos_nl', 'bol', 'eol') for edges in asr for kind, _ in edges)
     nl_class = alpha.class_of(NL) if uses_dollar else -1
     if uses_dollar and alpha.classes[nl_class] != NEWLINE:
-        raise AnalysisError('relang internal: newline is not a singleton class although `$` is used')
+        raise AnalysisError('relang internal: newline is not a singleton class although `$` / multiline anchors are used')
 
-    # pairs (state, layer): layer 0 = anywhere, 1 = committed "exactly one final newline remains", 2 = committed "at the end"
-    def closure(pairs: Iterable[Tuple[int, int]], pos0: bool) -> FrozenSet[Tuple[int, int]]:
+    # pairs (state, layer): layer 0 = anywhere, 1 = committed "exactly one final newline remains", 2 = committed "at the end",
+    # 3 = committed "the next character is a newline" (multiline `$`)
+    def closure(pairs: Iterable[Tuple[int, int]], pos0: bool, line_start: bool) -> FrozenSet[Tuple[int, int]]:
         seen = set(pairs)
         stack = list(seen)
 
@@ -891,18 +898,29 @@ def _determinize(r: Re, alpha: Alphabet) -> DFA:
                 if kind == 'bos':
                     if pos0:
                         add((t, L))
+                elif kind == 'bol':
+                    if line_start:
+                        add((t, L))
                 elif kind == 'eos':
-                    if L != 1:
+                    if L in (0, 2):
                         add((t, 2))
                 elif kind == 'eos_nl':
                     if L == 0:
                         add((t, 1))
                         add((t, 2))
+                    elif L == 3:
+                        add((t, 1))
+                    else:
+                        add((t, L))
+                elif kind == 'eol':
+                    if L == 0:
+                        add((t, 2))
+                        add((t, 3))
                     else:
                         add((t, L))
         return frozenset(seen)
 
-    init = closure([(start, 0)], True)
+    init = closure([(start, 0)], True, True)
     idx: Dict[FrozenSet[Tuple[int, int]], int] = {init: 0}
     order = [init]
     trans: List[List[int]] = []
@@ -921,13 +939,18 @@ def _determinize(r: Re, alpha: Alphabet) -> DFA:
                 for cs, t in chr_[q]:
                     if nl_class in members[cs]:
                         per_class[nl_class].add((t, 2))
+            elif L == 3:
+                for cs, t in chr_[q]:
+                    if nl_class in members[cs]:
+                        per_class[nl_class].add((t, 0))
         row = []
-        cache: Dict[FrozenSet[Tuple[int, int]], int] = {}
+        cache: Dict[Tuple[FrozenSet[Tuple[int, int]], bool], int] = {}
         for k in range(n):
             tgt = frozenset(per_class[k])
-            j = cache.get(tgt)
+            after_nl = k == nl_class
+            j = cache.get((tgt, after_nl))
             if j is None:
-                T = closure(tgt, False) if tgt else frozenset()
+                T = closure(tgt, False, after_nl) if tgt else frozenset()
                 j = idx.get(T)
                 if j is None:
                     j = len(order)
@@ -935,7 +958,7 @@ def _determinize(r: Re, alpha: Alphabet) -> DFA:
                         raise AnalysisError('relang: DFA too large')
                     idx[T] = j
                     order.append(T)
-                cache[tgt] = j
+                cache[(tgt, after_nl)] = j
             row.append(j)
         trans.append(row)
         i += 1
